@@ -186,7 +186,7 @@ func checkC02(c *Ctx) {
 					return
 				}
 				g := guardedM(f, ret, func(cnd string, pol bool) bool {
-					return !pol && strings.HasPrefix(cnd, "(-1 == ") && strings.Contains(cnd, "findMarkMac(")
+					return !pol && strings.HasPrefix(cnd, "(-1 == ") && strings.Contains(cnd, "findMarkMac")
 				})
 				// the mark derives from the keys of the returned registration and the presented representative
 				okMark := false
